@@ -756,6 +756,25 @@ func blockReaches(a, b *ssa.BasicBlock, strict bool) bool {
 // point on. Mutating it afterwards through the local name (delete, m[k] = v)
 // without the lock that guarded the publication is an unsynchronised write to
 // shared memory, invisible to the field-based lockset (R8).
+// maybeRecycledMap: the value is, depending on the path, a map made here or
+// something else (a map loaded from a field: one that was in use before).
+func maybeRecycledMap(v string) bool {
+	if !strings.HasPrefix(v, "phi{") || !strings.Contains(v, "makemap") {
+		return false
+	}
+	for _, alt := range strings.Split(strings.TrimSuffix(strings.TrimPrefix(v, "phi{"), "}"), " | ") {
+		if !strings.HasPrefix(alt, "makemap") && alt != "nil" {
+			return true
+		}
+	}
+	return false
+}
+
+// loadedField: the value is read from a field of a parameter (param:r.x…).
+func loadedField(v string) bool {
+	return strings.HasPrefix(v, "param:") && strings.Contains(v, ".") && !strings.ContainsAny(v, "(@[")
+}
+
 func rulePublishedFrozen(c *Check, rule string) {
 	nPub, nMut, bad := 0, 0, 0
 	var pubs []string
@@ -792,9 +811,9 @@ func rulePublishedFrozen(c *Check, rule string) {
 			KeepEvent: func(e *Event) bool {
 				switch e.Kind {
 				case "store":
-					return strings.HasPrefix(e.Val, "makemap")
+					return strings.HasPrefix(e.Val, "makemap") || maybeRecycledMap(e.Val) || loadedField(e.Val)
 				case "mapupdate":
-					return strings.HasPrefix(e.Addr, "makemap")
+					return strings.HasPrefix(e.Addr, "makemap") || maybeRecycledMap(e.Addr) || loadedField(e.Addr)
 				case "call":
 					return strings.Contains(e.Callee, ").Publish") || e.Callee == "builtin:delete" || e.Callee == "builtin:clear"
 				case "lock", "rlock", "unlock", "runlock", "ret":
@@ -813,6 +832,7 @@ func rulePublishedFrozen(c *Check, rule string) {
 		for i := range w.Paths {
 			p := &w.Paths[i]
 			published := map[string][]string{} // map value -> locks held when it was published
+			refilled := map[string]bool{}      // maps loaded from a field and modified on this path
 			for j := range p.Events {
 				e := &p.Events[j]
 				switch {
@@ -823,7 +843,37 @@ func rulePublishedFrozen(c *Check, rule string) {
 						nPub++
 						pubs = append(pubs, strings.TrimPrefix(e.Addr, "&"))
 					}
+				case (e.Kind == "mapupdate" && loadedField(e.Addr)) || (e.Kind == "call" && (e.Callee == "builtin:clear" || e.Callee == "builtin:delete") && len(e.Args) > 0 && loadedField(e.Args[0])):
+					if e.Kind == "mapupdate" {
+						refilled[e.Addr] = true
+					} else {
+						refilled[e.Args[0]] = true
+					}
+				case e.Kind == "store" && refilled[e.Val] && e.Addr != "&"+e.Val && !strings.HasPrefix(e.Addr, "&alloc:") && !strings.HasPrefix(e.Addr, "free:") && strings.Contains(e.Addr, "."):
+					key := c.P.InstrPos(e.Instr)
+					if !seenBad[key] {
+						seenBad[key] = true
+						bad++
+						c.Bad(rule, name+"/published-map-fresh", "the map installed in "+strings.TrimPrefix(e.Addr, "&")+" is "+e.Val+", a map that was in use before and is refilled here (not a map made in this call): goroutines that obtained it while it was installed or published earlier may still be reading it", key, describe(c, p))
+					}
+				case e.Kind == "store" && maybeRecycledMap(e.Val) && !strings.HasPrefix(e.Addr, "&alloc:") && !strings.HasPrefix(e.Addr, "free:") && strings.Contains(e.Addr, "."):
+					key := c.P.InstrPos(e.Instr)
+					if !seenBad[key] {
+						seenBad[key] = true
+						bad++
+						c.Bad(rule, name+"/published-map-fresh", "the map installed in a shared object ("+strings.TrimPrefix(e.Addr, "&")+") is "+e.Val+": not on every path a map made in this call, but possibly one that was shared or published earlier and is refilled here, while goroutines that received it then may still be reading it", key, describe(c, p))
+					}
 				case e.Kind == "call" && strings.Contains(e.Callee, ").Publish"):
+					for _, a := range e.Args {
+						if maybeRecycledMap(a) || refilled[a] {
+							key := c.P.InstrPos(e.Instr)
+							if !seenBad[key] {
+								seenBad[key] = true
+								bad++
+								c.Bad(rule, name+"/published-map-fresh", "the map handed to subscribers is "+a+": not on every path a map made in this call, but possibly one that was published earlier and is refilled here, while a subscriber that received it then may still be reading it", key, describe(c, p))
+							}
+						}
+					}
 					for _, a := range e.Args {
 						if strings.HasPrefix(a, "makemap") {
 							published[a] = append([]string{}, e.Held...)
